@@ -222,6 +222,14 @@ func checkLexicalErrorSite(c *Ctx) {
 		}
 	}
 	c.Check("R20.3", "the error text is the error token's message", s.nextFn.Pos(), textOK, "errors.New is not fed the evaluated token's Lexeme")
+	// an unterminated lexical element at the very end of the file is still reported: the pending lexeme is evaluated at end of input
+	if sl.ok {
+		checkPendingAtEOF(c, "R20.3", sl, "internal/ebnf/lexer")
+	}
+	// line and column refer to the file: the text reaches the reader unmodified
+	if ri := findReader(c, "R20.3"); ri != nil {
+		checkSourceUnmodified(c, "R20.3", ri)
+	}
 }
 
 // checkFilenamePlumbing: the first parameter of each entry point reaches input.New's first argument unchanged.
@@ -235,7 +243,15 @@ func checkFilenamePlumbing(c *Ctx) {
 		{"internal/ebnf/parser/spec", "Parse", modPath + "/internal/ebnf/parser", "New"},
 		{"internal/ebnf/parser/ast", "Parse", modPath + "/internal/ebnf/parser", "New"},
 		{"internal/ebnf/parser", "New", modPath + "/internal/ebnf/lexer", "New"},
-		{"internal/ebnf/lexer", "New", depPath + "/lexer/input", "New"},
+	}
+	if ri := findReader(c, "R20.4"); ri != nil {
+		callee := ri.ctor.Call.StaticCallee()
+		hops = append(hops, hop{"internal/ebnf/lexer", "New", fnPkgPath(callee), callee.Name()})
+		if ri.kind == "mem" {
+			// the reader is module code: that it stores the name and reports every position under it is decided here
+			checkMemReader(c, "R20.4", ri)
+			checkMemReaderPositions(c, "R20.4", ri)
+		}
 	}
 	for _, h := range hops {
 		p := c.Pkg(h.pkg)
@@ -343,11 +359,12 @@ func checkEndMarkerPos(c *Ctx, g *ebnfGrammar) {
 		okZero, n := true, 0
 		for _, b := range fn.Blocks {
 			ret, ok := b.Instrs[len(b.Instrs)-1].(*ssa.Return)
-			if !ok || len(ret.Results) != 2 || isNilConst(ret.Results[1]) {
+			if !ok || len(ret.Results) < 2 || isNilConst(ret.Results[len(ret.Results)-1]) {
 				continue
 			}
-			if _, isExtract := ret.Results[1].(*ssa.Extract); isExtract {
-				if ex, ok := ret.Results[0].(*ssa.Extract); ok && ex.Tuple == ret.Results[1].(*ssa.Extract).Tuple {
+			last := ret.Results[len(ret.Results)-1]
+			if _, isExtract := last.(*ssa.Extract); isExtract {
+				if ex, ok := ret.Results[0].(*ssa.Extract); ok && ex.Tuple == last.(*ssa.Extract).Tuple {
 					continue // results of a nested call are passed through
 				}
 			}
